@@ -13,13 +13,16 @@ bytes of the inputs to the bytes of the report. It composes the component models
 
 Parameters of the model, as in the component models: the file system (`Rewrite.FS`, no symlinks);
 the order in which the inputs are processed (here: as listed; C02 shows the result map does not
-depend on it observably); the iteration order of the two `FxHashMap`s – result map and function
-table – which the model takes to be insertion order. Demangling is off (`--no-demangle`), no path
+depend on it observably); the iteration order of the result map (an `FxHashMap`), which the model
+takes to be insertion order – the function table of a file is listed in name order since 73c9152
+(`sortFns`), whatever its iteration order. Demangling is off (`--no-demangle`), no path
 mapping file is written, exclusion markers are not configured. Core Lean only.
 -/
 import GrcovModel.Lcov
 import GrcovModel.Lemmas.LcovWriter
 import GrcovModel.Rewrite
+import GrcovModel.Rewrite.Partial
+import GrcovModel.MainGlue
 namespace Grcov.Cli
 open Grcov AList Grcov.Lcov Grcov.Rewrite
 
@@ -33,9 +36,26 @@ def sortByKey {α : Type} : List (Nat × α) → List (Nat × α)
   | [] => []
   | x :: xs => insertByKey x (sortByKey xs)
 
-/-- the record as `output_lcov` iterates it: lines and branch lines ascending -/
+/-! ### `sorted_functions` (src/output.rs): the function table in name order
+
+`functions.sort_by(|a, b| a.0.cmp(b.0))`: `String`'s `Ord`, i.e. lexicographic on the UTF-8 bytes
+(`MainGlue.bytesLe`). The names of one table are distinct, so the result does not depend on the
+table's own iteration order (`sortFns_eq_of_perm`). -/
+
+/-- insert before the first entry whose name is not smaller -/
+def insertByName (nf : Name × Fn) : List (Name × Fn) → List (Name × Fn)
+  | [] => [nf]
+  | x :: xs => if MainGlue.bytesLe nf.1 x.1 then nf :: x :: xs else x :: insertByName nf xs
+
+/-- `sorted_functions`: a stable insertion sort by name (reduces in the kernel) -/
+def sortFns : List (Name × Fn) → List (Name × Fn)
+  | [] => []
+  | x :: xs => insertByName x (sortFns xs)
+
+/-- the record as `output_lcov` iterates it: lines and branch lines ascending (`BTreeMap`s), the
+functions in name order (`sorted_functions`) -/
 def sortCov (c : Cov) : Cov :=
-  { c with lines := sortByKey c.lines, branches := sortByKey c.branches }
+  { lines := sortByKey c.lines, branches := sortByKey c.branches, functions := sortFns c.functions }
 
 /-! ### one run -/
 
@@ -52,6 +72,18 @@ def resultMap (cfg : Cfg) (branch : Bool) (fs : FS) (inputs : List Bytes) : List
 /-- the report of the run: `rewrite_paths` on the result map -/
 def report (cfg : Cfg) (branch : Bool) (fs : FS) (inputs : List Bytes) : Res (List Rec) :=
   rewritePaths cfg fs (resultMap cfg branch fs inputs)
+
+/-- `output_lcov` on (relative path, record) pairs whose maps are given as lists in ANY order:
+every record is walked as the code walks it (`sortCov`: lines and branch lines ascending, functions
+by name), the file records in the order given -/
+def outputLcov (rs : List (Bytes × Cov)) : Bytes := printLcov (rs.map fun pc => (pc.1, sortCov pc.2))
+
+/-- `output_lcov` with demangling on (`dm` = `symbolic_demangle` with `name_only`, a parameter):
+the functions are listed in the order of their TABLE names (the mangled ones: `sorted_functions`
+runs before `demangle!`), each printed as `dm name` -/
+def outputLcovDm (dm : Name → Name) (rs : List (Bytes × Cov)) : Bytes :=
+  printLcov (rs.map fun pc =>
+    (pc.1, { sortCov pc.2 with functions := (sortFns pc.2.functions).map fun nf => (dm nf.1, nf.2) }))
 
 /-- what `output_lcov` is given: (relative path, record) per reported file -/
 def printable (rep : List Rec) : List (Bytes × Cov) := rep.map fun r => (r.rel, sortCov r.cov)
@@ -72,6 +104,33 @@ def rerun (cfg : Cfg) (branch : Bool) (fs : FS) : Nat → Bytes → Res Bytes
   | k + 1, b =>
     match run cfg branch fs [b] with
     | .ok b' => rerun cfg branch fs k b'
+    | .panic s => .panic s
+
+/-! ### one run, Java/Kotlin keys included (second review, item 26)
+
+`rewrite_paths` looks `.java` / `.kt` keys up below the source directory when some key does not
+exist there as spelled (`Rewrite.rewritePathsJ`, GrcovModel/Rewrite/Partial.lean; `ord` = the
+entries of the source tree in the order of the directory walk, a parameter). `runJ` is the run
+with that step inside; it is `run` whenever the lookup is not needed (`runJ_eq_run`,
+Lemmas/Cli.lean): no source dir, no `.java`/`.kt` key, or every key existing below the source
+dir as spelled. The driver op `cli.runj` and the CLI theorems of C05 / C06 are about `runJ`. -/
+
+def reportJ (cfg : Cfg) (branch : Bool) (fs : FS) (ord : List (List Bytes)) (inputs : List Bytes) :
+    Res (List Rec) :=
+  rewritePathsJ cfg fs ord (resultMap cfg branch fs inputs)
+
+def runJ (cfg : Cfg) (branch : Bool) (fs : FS) (ord : List (List Bytes)) (inputs : List Bytes) :
+    Res Bytes :=
+  match reportJ cfg branch fs ord inputs with
+  | .ok rep => .ok (printReport rep)
+  | .panic s => .panic s
+
+/-- `k` further runs, each on the single report the previous one wrote -/
+def rerunJ (cfg : Cfg) (branch : Bool) (fs : FS) (ord : List (List Bytes)) : Nat → Bytes → Res Bytes
+  | 0, b => .ok b
+  | k + 1, b =>
+    match runJ cfg branch fs ord [b] with
+    | .ok b' => rerunJ cfg branch fs ord k b'
     | .panic s => .panic s
 
 /-- a tree of shards: a leaf is an input file, an inner node is one run on the reports of its
